@@ -134,10 +134,17 @@ def do_check(pid, mod, args, seed, scratch):
         # thorough = everything the quick tier explores (run first, with its own budgets) + the deeper shards,
         # cheapest first, until the wall-time budget is used up
         quick = mod.shards("quick")
-        qnames = {s["name"] for s in quick}
+        qparams = {s["name"]: json.dumps(s.get("params", {}), sort_keys=True, default=str) for s in quick}
         for s in quick:
             s["_quick"] = True
-        shards = quick + [s for s in shards if s["name"] not in qnames]
+        deeper = []
+        for s in shards:
+            if s["name"] in qparams:
+                if json.dumps(s.get("params", {}), sort_keys=True, default=str) == qparams[s["name"]]:
+                    continue  # identical to a quick shard
+                s["name"] = s["name"] + "/deep"  # same name, larger parameters
+            deeper.append(s)
+        shards = quick + deeper
     for s in shards:
         s.setdefault("params", {})
         if exclude and s.get("accepts_exclude", False):
